@@ -999,6 +999,31 @@ func irun(args []string) error {
 				return err
 			}
 		}
+		// chunks of several hundred KiB under every built-in compression and level (the codecs then stream a chunk in several
+		// blocks / frames with level-dependent window sizes): what the scan decodes, the index-based reads must decode too
+		k := 0
+		for _, comp := range []string{"zstd", "lz4"} {
+			for level := 0; level < 4; level++ {
+				k++
+				if *n < 100 && k%2 == 0 {
+					continue
+				}
+				c := wl.Cfg{Chunked: true, ChunkSize: []int64{300 << 10, 1 << 20}[k%2], Compression: comp, Level: level, CRC: k%3 == 0}
+				w := wl.Workload{ID: fmt.Sprintf("wbulk%d-%s-%d", *seed, comp, level), Cfg: c, Calls: g.BulkCalls(1500)}
+				var buf bytes.Buffer
+				tr := wl.NewTrace()
+				res := run.RunWriter(tr, w, nil, &buf)
+				if len(res.Rets) == 0 || res.Rets[len(res.Rets)-1] != "ok" {
+					continue
+				}
+				b := append([]byte{}, buf.Bytes()...)
+				d := describe(b)
+				specs := readSpecs(r, d, 2, false)
+				if err := emit(job{w.ID, b, specs, nil}); err != nil {
+					return err
+				}
+			}
+		}
 	default:
 		return fmt.Errorf("unknown mode %q", *mode)
 	}
